@@ -5,6 +5,7 @@
 -/
 import IbicusModel.Props.C06
 import IbicusModel.Lemmas.C06Except
+import IbicusModel.Lemmas.C06Rank
 
 namespace Lemmas.C06
 open Model.Skeleton Model.Windows Lemmas.Windows Lemmas.Skeleton Lemmas.Pointwise Lemmas.Perm Lemmas.Lift
@@ -123,5 +124,125 @@ theorem equivariance_months {α} (f : WinFn α) (G : List α → List α → Lis
   · have : out'.length = pF.length := by rw [hl', take_length fut pF hvF]
     rw [List.getElem?_eq_none (by omega), List.getElem?_eq_none (by omega)]
     rfl
+
+/-! ### window functions that may raise, tie-free guard -/
+
+theorem monthWrites_E {α C} (f : WinFn α) (E : List α → List α → List α → Except String C) (G : C → List α → α → α)
+    (hf : PointwiseOnE f E G) (mO mH mF : List Int) (obs hist fut : List α) (m : Int) :
+    (∃ e, E (take obs (indicesIn mO [m])) (take hist (indicesIn mH [m])) (take fut (indicesIn mF [m])) = .error e ∧
+      monthWrites f mO mH mF obs hist fut m = .error e) ∨
+    (∃ c, E (take obs (indicesIn mO [m])) (take hist (indicesIn mH [m])) (take fut (indicesIn mF [m])) = .ok c ∧
+      monthWrites f mO mH mF obs hist fut m = monthWrites (totalFn E G) mO mH mF obs hist fut m) := by
+  cases hE : E (take obs (indicesIn mO [m])) (take hist (indicesIn mH [m])) (take fut (indicesIn mF [m])) with
+  | error e =>
+    left
+    refine ⟨e, rfl, ?_⟩
+    unfold monthWrites
+    simp only [monthIdx_eq, hf _ _ _ _ _ _, hE, Except.map, bind, Except.bind]
+  | ok c =>
+    right
+    refine ⟨c, rfl, ?_⟩
+    unfold monthWrites
+    have hg : totalG E G (take obs (indicesIn mO [m])) (take hist (indicesIn mH [m])) (take fut (indicesIn mF [m])) =
+        G c (take fut (indicesIn mF [m])) := by
+      funext a; unfold totalG; rw [hE]
+    simp only [monthIdx_eq, hf _ _ _ _ _ _, hE, Except.map, totalFn, hg]
+
+/-- **Time-order equivariance of the month loop for window functions that may raise** -/
+theorem equivariance_months_E {α C} (f : WinFn α) (E : List α → List α → List α → Except String C)
+    (G : C → List α → α → α) (hf : PointwiseOnE f E G) (hE : OrderFreeE E G)
+    (mO mH mF : List Int) (obs hist fut : List α) (pO pH pF : List Nat)
+    (hpO : pO.Perm (List.range obs.length)) (hpH : pH.Perm (List.range hist.length))
+    (hpF : pF.Perm (List.range fut.length))
+    (hlO : mO.length = obs.length) (hlH : mH.length = hist.length) (hlF : mF.length = fut.length)
+    (hr : ∀ m ∈ mF, 1 ≤ m ∧ m ≤ 12) :
+    (∃ out, applyLocationMonths f mO mH mF obs hist fut = .ok out ∧
+      applyLocationMonths f (take mO pO) (take mH pH) (take mF pF) (take obs pO) (take hist pH) (take fut pF)
+        = .ok (take out pF)) ∨
+    (∃ e, applyLocationMonths f mO mH mF obs hist fut = .error e ∧
+      applyLocationMonths f (take mO pO) (take mH pH) (take mF pF) (take obs pO) (take hist pH) (take fut pF)
+        = .error e) := by
+  have hvF := perm_valid pF hpF
+  have hvFd : ∀ j ∈ pF, j < mF.length := fun j hj => hlF ▸ hvF j hj
+  have hlen' : (take mF pF).length = (take fut pF).length := by
+    rw [take_length mF pF hvFd, take_length fut pF hvF]
+  have hflen : (take fut pF).length = fut.length := by
+    rw [take_length fut pF hvF]; simpa using hpF.length_eq
+  have hctx : ∀ m, E (take (take obs pO) (indicesIn (take mO pO) [m])) (take (take hist pH) (indicesIn (take mH pH) [m]))
+      (take (take fut pF) (indicesIn (take mF pF) [m])) =
+      E (take obs (indicesIn mO [m])) (take hist (indicesIn mH [m])) (take fut (indicesIn mF [m])) := fun m =>
+    hE.1 _ _ _ _ _ _ (window_sample_perm obs mO _ pO hlO.symm hpO) (window_sample_perm hist mH _ pH hlH.symm hpH)
+      (window_sample_perm fut mF _ pF hlF.symm hpF)
+  by_cases hall : ∀ m ∈ Py.arange1 1 13, ∃ c,
+      E (take obs (indicesIn mO [m])) (take hist (indicesIn mH [m])) (take fut (indicesIn mF [m])) = .ok c
+  · left
+    have e1 : applyLocationMonths f mO mH mF obs hist fut = applyLocationMonths (totalFn E G) mO mH mF obs hist fut := by
+      unfold applyLocationMonths
+      apply runLoop_congr
+      intro m hm
+      rcases monthWrites_E f E G hf mO mH mF obs hist fut m with ⟨e, he, _⟩ | ⟨c, _, hw⟩
+      · obtain ⟨c, hc⟩ := hall m hm; rw [hc] at he; cases he
+      · exact hw
+    have e2 : applyLocationMonths f (take mO pO) (take mH pH) (take mF pF) (take obs pO) (take hist pH) (take fut pF) =
+        applyLocationMonths (totalFn E G) (take mO pO) (take mH pH) (take mF pF) (take obs pO) (take hist pH) (take fut pF) := by
+      unfold applyLocationMonths
+      apply runLoop_congr
+      intro m hm
+      rcases monthWrites_E f E G hf (take mO pO) (take mH pH) (take mF pF) (take obs pO) (take hist pH) (take fut pF) m
+        with ⟨e, he, _⟩ | ⟨c, _, hw⟩
+      · obtain ⟨c, hc⟩ := hall m hm; rw [hctx m, hc] at he; cases he
+      · exact hw
+    rw [e1, e2]
+    exact equivariance_months (totalFn E G) (totalG E G) (totalFn_pointwise E G) (totalG_orderFree E G hE)
+      mO mH mF obs hist fut pO pH pF hpO hpH hpF hlO hlH hlF hr
+  · right
+    have hex : ∃ m ∈ Py.arange1 1 13, ∃ e, monthWrites f mO mH mF obs hist fut m = .error e := by
+      by_contra hno
+      apply hall
+      intro m hm
+      rcases monthWrites_E f E G hf mO mH mF obs hist fut m with ⟨e, _, hw⟩ | ⟨c, hc, _⟩
+      · exact absurd ⟨m, hm, e, hw⟩ hno
+      · exact ⟨c, hc⟩
+    have hpair : ∀ m ∈ Py.arange1 1 13,
+        (∃ e, monthWrites f mO mH mF obs hist fut m = .error e ∧
+          monthWrites f (take mO pO) (take mH pH) (take mF pF) (take obs pO) (take hist pH) (take fut pF) m = .error e) ∨
+        ((∃ a, monthWrites f mO mH mF obs hist fut m = .ok a) ∧
+          (∃ b, monthWrites f (take mO pO) (take mH pH) (take mF pF) (take obs pO) (take hist pH) (take fut pF) m = .ok b)) := by
+      intro m _
+      rcases monthWrites_E f E G hf mO mH mF obs hist fut m with ⟨e, he, hw⟩ | ⟨c, hc, hw⟩
+      · left
+        rcases monthWrites_E f E G hf (take mO pO) (take mH pH) (take mF pF) (take obs pO) (take hist pH) (take fut pF) m
+          with ⟨e', he', hw'⟩ | ⟨c', hc', _⟩
+        · rw [hctx m, he] at he'
+          cases he'
+          exact ⟨e, hw, hw'⟩
+        · rw [hctx m, he] at hc'; cases hc'
+      · right
+        rcases monthWrites_E f E G hf (take mO pO) (take mH pH) (take mF pF) (take obs pO) (take hist pH) (take fut pF) m
+          with ⟨e', he', _⟩ | ⟨c', _, hw'⟩
+        · rw [hctx m, hc] at he'; cases he'
+        · exact ⟨⟨_, hw.trans (monthWrites_pointwise (totalFn E G) (totalG E G) (totalFn_pointwise E G) mO mH mF
+              obs hist fut m hlF)⟩,
+            ⟨_, hw'.trans (monthWrites_pointwise (totalFn E G) (totalG E G) (totalFn_pointwise E G) (take mO pO)
+              (take mH pH) (take mF pF) (take obs pO) (take hist pH) (take fut pF) m hlen')⟩⟩
+    obtain ⟨e, e1, e2⟩ := mapE_error_congr _ _ _ hpair hex
+    refine ⟨e, ?_, ?_⟩
+    · unfold applyLocationMonths runLoop
+      rw [e1]; rfl
+    · unfold applyLocationMonths runLoop
+      rw [e2]; rfl
+
+/-- the month loop evaluates the window function on month samples only -/
+theorem applyLocationMonths_congr_nodup {α} (f f' : WinFn α)
+    (hff : ∀ o h x io ih ix, x.Nodup → f o h x io ih ix = f' o h x io ih ix)
+    (mO mH mF : List Int) (obs hist fut : List α) (hnd : fut.Nodup) :
+    applyLocationMonths f mO mH mF obs hist fut = applyLocationMonths f' mO mH mF obs hist fut := by
+  unfold applyLocationMonths
+  apply runLoop_congr
+  intro m _
+  unfold monthWrites
+  have hw : (take fut (Py.whereTrue (mF.map (fun x => decide (x = m))))).Nodup := by
+    rw [monthIdx_eq]; exact take_nodup fut _ hnd (indicesIn_nodup mF _)
+  simp only [hff _ _ _ _ _ _ hw]
 
 end Lemmas.C06
